@@ -14,7 +14,7 @@ import (
 func init() {
 	register(&PropSpec{
 		ID:       "C15",
-		Patterns: []string{"./pkg/upstream/cluster", "./pkg/types", "./pkg/router", "./pkg/proxy"},
+		Patterns: []string{"./pkg/upstream/cluster", "./pkg/types", "./pkg/router", "./pkg/proxy", "./istio/istio1106/xds/conv"},
 		Explanation: "(R1) every subset entry's balancer is built over exactly the hosts matching the entry's own key/values: each entry.CreateLoadBalancer(info, X) takes X = CreateSubset(hostSet, host -> HostMatches(kvs, host)) or &hostSet{allHosts: filterHosts(kvs)} for the same kvs that located the entry in the trie; HostMatches returns true only after its loop and false on any missing/unequal pair; filterHosts starts from a copy of the first value set and only intersects; " +
 			"(R2) delegation set: subsetLoadBalancer.ChooseHost/HostNum/IsExistsHosts delegate only to the entry found by findSubset(criteria) guarded by entry != nil && entry.Active(), to the full balancer guarded by 'no criteria', and to the fallback entry guarded by non-nil; findSubset returns an entry only after consuming all criteria and nil on any miss; " +
 			"(R3) fallback switch in both builders: NoFallBack -> no fallback entry, AnyEndPoint -> the full balancer, DefaultSubset -> hosts matching DefaultSubset(). The inner balancers are covered by C05. (R4) no append onto a loop-invariant slice inside a loop in the subset builders: key/value lists of sibling subsets never share a backing array. (R5) a pointer passed to a parameter that the callee retains in long-lived storage (transitively, through interface methods of the package) is allocated in the calling function, not the address of a builder field or global. (R6) pkg/proxy calls no method of MetadataMatchCriteriaImpl / api.MetadataMatchCriteria from which a store rooted at the receiver is reachable. (R1 metadata-lookup-distinguishes-missing) every lookup into an api.Metadata map in pkg/upstream/cluster is the comma-ok form and its value is used only on the presence flag's true edge. (R8) every non-nil value returned by the host-selection cache's get(*intsets.Sparse) is returned under the true edge of a test that reaches (*intsets.Sparse).Equals.",
